@@ -320,7 +320,8 @@ def write_evidence(check, acc, tier, seed, wall, violations, info):
         "evaluations": int(acc.n["evaluations"]),
         "distinct_nontrivial": len(acc.nontrivial),
         "rule": info.get("rule", ""),
-        "samples": acc.samples[:6],
+        "samples": (acc.samples[:6] or [{"violating_case": b["examples"][0]["case"]} for b in list(acc.buckets.values())[:3] if b["examples"]]
+                    or [{"note": "no input was evaluated"}]),
         "exhaustive": bool(info.get("exhaustive", True)) and not acc.caps,
         "bound": info.get("bound", ""),
         "caps_hit": acc.caps,
